@@ -5,6 +5,9 @@ import STProofs.SepticSym
 import STProofs.QuinticRev
 import STProofs.SepticRev
 import STProofs.CubicRev
+import STProofs.CubicRevGrad
+import STProofs.QuinticRevGrad
+import STProofs.SepticRevGrad
 /-!
 # C14 — time shift, translation, amplitude scaling, time scaling (every N, positive durations, all three orders)
 
@@ -22,7 +25,11 @@ that maps Hermite closures to Hermite closures and preserves the optimality cond
   odd boundary derivatives negated, start/end swapped ⇒ piece `i` of the new spline is `τ ↦ c_{N-1-i}(h − τ)`;
   `energySeg_rev` (same energy).
 
-(The mirrored *gradients* under reversal are decided on the implementation by the exact reversal check.)
+* mirrored gradients (all orders): `CubicRev/QuinticRev/SepticRev.energyGrads_reverse` — for the reversed problem the
+  duration gradients (`getEnergyGradTimes`) and inner-point gradients (`getEnergyGradInnerPoints`) are the original ones in
+  reverse order, the boundary gradients swap start and end with the odd components (velocity, jerk) negated, and the energy
+  is the same.  The duration gradient is a first integral of the optimal piece (`gradTime_rev`), which is why it can be
+  read off at either end.
 -/
 open ST
 
